@@ -136,6 +136,28 @@ class Unflatten(Contract):
     name = 'optree::PyTreeSpec::Unflatten'
     props = ('C01',)
 
+    def apply(self, eng, st, this, args, n):
+        # call-site summary: a new object built from the leaves (constructors / custom unflatten functions may run), or an error
+        eng.may_call_python(st, 'unflatten (constructors / custom unflatten functions / leaves iterator)', n.get('line'))
+        s_exc = st.clone()
+        eng.throw(s_exc, 'pybind11::error_already_set', n.get('line'), 'from unflatten')
+        view = getattr(eng.cur_contract, 'views', {}).get('this')
+        lv = args[0].ref if args and isinstance(args[0], PyObj) else None
+        if view is not None and lv is not None and (this is None or this is st.this):
+            # the contract of UnflattenImpl (proved): ValueError exactly when the iterable does not yield num_leaves items
+            exact = M.iter_len(lv) == view.NL(view.v.len - 1)
+            s_bad = st.clone()
+            eng.assume(s_bad, z3.Not(exact))
+            if eng.feasible(s_bad):
+                eng.throw(s_bad, 'pybind11::value_error', n.get('line'), 'leaf count mismatch')
+            eng.assume(st, exact)
+            if not eng.feasible(st):
+                return []
+        else:
+            s_bad = st.clone()
+            eng.throw(s_bad, 'pybind11::value_error', n.get('line'), 'leaf count mismatch')
+        return [(st, PyObj(fresh('unflattened', Ref), fresh=True))]
+
     def raises(self, cx):
         return {'pybind11::value_error': None, 'pybind11::error_already_set': None}
 
@@ -214,9 +236,43 @@ class WalkImpl(AgendaWalk):
     template_instances = [{'PassRawNode': True}, {'PassRawNode': False}]
 
     def __init__(self):
-        self.loops = {0: Loop(self.base_inv, index='node__idx', hints=UnflattenImpl.hints.__get__(self),
-                              decreases=lambda cx: cx.this_vec(cx.entry).len - cx.var('node__idx')),
+        self.loops = {0: Loop(self.walk_inv, index='node__idx', hints=UnflattenImpl.hints.__get__(self),
+                              decreases=lambda cx: cx.this_vec(cx.entry).len - cx.var('node__idx'),
+                              ghost_modifies=('leaf_calls', 'node_calls')),
                       1: Loop(self.inner_inv, decreases=lambda cx: cx.var('i') + 1)}
+
+    def setup(self, eng, st, fn):
+        cx = super().setup(eng, st, fn)
+        st.ghost['leaf_calls'] = z3.IntVal(0)      # how often f_leaf / f_node have been applied so far (C05)
+        st.ghost['node_calls'] = z3.IntVal(0)
+        return cx
+
+    @staticmethod
+    def given(cx, name):
+        v = cx.old(name)
+        return (v.ref if isinstance(v, PyObj) else v) != NULL
+
+    def walk_inv(self, cx):
+        v = self.views['this']
+        i = cx.var('node__idx')
+        g = cx.st.ghost
+        return self.base_inv(cx) + [
+            ('leaf-function-applied-exactly-once-per-leaf-so-far', g['leaf_calls'] == z3.If(self.given(cx, 'f_leaf'), v.PL(i), 0)),
+            ('node-function-applied-exactly-once-per-internal-node-so-far',
+             g['node_calls'] == z3.If(self.given(cx, 'f_node'), i - v.PL(i), 0))]
+
+    def on_python_result(self, eng, st, f, args, r, n):
+        fl, fn_ = st.get('f_leaf'), st.get('f_node')
+        ref = lambda x: x.ref if isinstance(x, PyObj) else x
+        if f.ref.eq(ref(fl)):
+            st.ghost['leaf_calls'] = st.ghost['leaf_calls'] + 1
+            it = st.get('it')
+            a0 = args[0].ref if isinstance(args[0], PyObj) else args[0]
+            eng.oblige(st, 'III', 'leaf-function-is-applied-to-the-next-leaf-of-the-iterable', a0 == M.iter_item(it.ref, it.pos), n.get('line'))
+        elif f.ref.eq(ref(fn_)):
+            st.ghost['node_calls'] = st.ghost['node_calls'] + 1
+        else:
+            eng.oblige(st, 'III', 'only-the-two-given-functions-are-called', z3.BoolVal(False), n.get('line'))
 
     def inner_inv(self, cx):
         v = self.views['this']
@@ -236,7 +292,11 @@ class WalkImpl(AgendaWalk):
     def post(self, cx, ret):
         v = self.views['this']
         n = v.v.len
-        return [('consumed-exactly-num_leaves-leaves', M.iter_len(cx.old('leaves').ref) == v.NL(n - 1))]
+        g = cx.st.ghost
+        return [('consumed-exactly-num_leaves-leaves', M.iter_len(cx.old('leaves').ref) == v.NL(n - 1)),
+                ('leaf-function-applied-exactly-once-per-leaf', g['leaf_calls'] == z3.If(self.given(cx, 'f_leaf'), v.NL(n - 1), 0)),
+                ('node-function-applied-exactly-once-per-internal-node',
+                 g['node_calls'] == z3.If(self.given(cx, 'f_node'), n - v.NL(n - 1), 0))]
 
     def raises(self, cx):
         v = self.views['this']
